@@ -1,6 +1,51 @@
 package sim
 
 func init() {
+	for _, id := range []string{"C09", "C10"} {
+		id := id
+		regProp(&propDef{
+			id:   id,
+			gen:  func(seed uint64, th bool) *Plan { return genTxPlan(id, seed, th) },
+			chk:  newSeqChecker,
+			rule: "1-3 connections run transaction programs (WATCH/UNWATCH, MULTI, queued commands incl. failing, rejected and blocking ones, nested MULTI, WATCH inside MULTI, EXEC/DISCARD with and without MULTI, follow-up commands) taking turns at command granularity as the tape decides; every reply and the stored state are compared with the model's session automaton and per-key modification counters; non-trivial = an EXEC with a non-empty queue was answered and (C10) a watched key was written or expired between WATCH and EXEC; distinct = distinct scheduler event sequence",
+			nontrivial: func(res *RunResult) bool {
+				if id == "C10" {
+					return res.Extra["exec-nonempty"] >= 1 && res.Extra["watched-touched"] >= 1
+				}
+				return res.Extra["exec-nonempty"] >= 1
+			},
+			quickRuns:       4000,
+			thoroughRuns:    300000,
+			quickSeconds:    60,
+			thoroughSeconds: 900,
+			level:           "exploration",
+			explanation:     "Turn-taking histories over several connections: the tape decides whose command runs next, so every position of a modification relative to WATCH/MULTI/EXEC of another connection is reachable, while the model stays an exact oracle. Atomicity of EXEC against truly concurrent commands is covered by the concurrent class of C09 (linearizability) and by C08.",
+			assumptions: []string{
+				"the reference model's transaction automaton follows the Redis 7 documentation (queue-time rejection => EXECABORT; runtime errors stay in place; WATCH inside MULTI and nested MULTI are errors that keep the transaction)",
+				"a command with unusable arguments inside MULTI may be answered QUEUED (Redis) or rejected at once (argument validation before queueing); the observed reply decides which continuation the model follows",
+			},
+		})
+	}
+	regProp(&propDef{
+		id:   "C08",
+		gen:  func(seed uint64, th bool) *Plan { return genConcPlan("C08", seed, th) },
+		chk:  newLinChecker,
+		rule: "2-4 connections issue 3-12 read-modify-write / multi-key commands each on 2-4 shared keys, every emulator goroutine is scheduled from the tape at each lock boundary and store primitive; the recorded history plus a final read-back of every key is checked for linearizability against the reference model with porcupine; non-trivial = at least 2 commands of different connections overlapped in [invoke, return] and named a common key, and porcupine decided (ok); distinct = distinct scheduler event sequence",
+		nontrivial: func(res *RunResult) bool {
+			return res.Extra["overlaps"] >= 1 && res.Extra["porcupine-ok"] == 1
+		},
+		quickRuns:       6000,
+		thoroughRuns:    400000,
+		quickSeconds:    60,
+		thoroughSeconds: 900,
+		level:           "exploration",
+		explanation:     "Concurrent histories: which emulator goroutine advances at each lock boundary, store primitive and channel wake-up is chosen from the seeded tape; invoke/return are scheduler step numbers, so no two events tie. porcupine Unknown (timeout) is counted as inconclusive, never as pass or violation.",
+		assumptions: []string{
+			"the reference model states Redis 7 semantics for the generated commands (no time-dependent commands except far deadlines)",
+			"interleavings are explored at hook sites (lock boundaries, store primitives, wake-ups); unsynchronised access between hook sites is C16's job",
+			"invoke = step at which the first request byte was handed to the transport (deliberately early), return = step at which the last reply byte was written",
+		},
+	})
 	seqRule := "one generated single-connection history per run, replies and full stored state compared with the reference model after every command; non-trivial = at least 10 commands were answered, keys of at least 2 types existed and at least one command met a key of another type or an expired-but-stored key; distinct = distinct (seed-independent) hash of the command-name sequence and scheduler event sequence"
 	for _, id := range []string{"C02", "C03", "C04", "C05", "C06", "C07"} {
 		id := id
